@@ -13,3 +13,13 @@ for f in Log4rsModel/Properties/C*.lean; do
   lake env leanchecker Log4rsModel.Properties.$p && echo "leanchecker ok: $p"
   rm -f /tmp/audit_$p.lean
 done
+echo "--- translation obligations (tables regenerated from ${VERIF_REPO:-/repo}/src by tools/translate.py, checked by the kernel):"
+mkdir -p ../.scratch/audit_gen
+for j in ../props.d/C*.json; do
+  p=$(basename $j .json)
+  python3 ../tools/translate.py --repo "${VERIF_REPO:-/repo}" --prop $p --out ../.scratch/audit_gen/Gen_$p.lean > /dev/null
+  if grep -q '^theorem\|GEN-UNREADABLE' ../.scratch/audit_gen/Gen_$p.lean; then
+    lake env lean ../.scratch/audit_gen/Gen_$p.lean 2>&1 | grep 'GEN-\|error' || true
+  fi
+done
+rm -rf ../.scratch/audit_gen
